@@ -260,6 +260,9 @@ pub const INDENTS: Table = &[
     (1, "          "),
     (1, "\u{e9} "),
     (1, "//"),
+    // non-empty but zero columns wide
+    (1, "\x1b[1m"),
+    (1, "\u{200b}"),
 ];
 
 pub fn indent() -> impl Strategy<Value = String> {
